@@ -419,7 +419,8 @@ class HeaderSearchCriteria(SearchCriteria):
 
     def __init__(self, name: str, value: str, params: SearchParams) -> None:
         super().__init__(params)
-        self.name = name.encode('ascii')
+        # field names are ASCII, one that is not simply matches no header
+        self.name = name.encode('utf-8', 'replace')
         self.value = value
 
     def matches(self, msg_seq: int, msg: MessageInterface,
